@@ -3,8 +3,10 @@ import PoxModel.Proofs.FlowModRefine
 
 Property theorems only.  Model: `Model/FlowMod.lean` (`step`, `run` — `_rx_flow_mod` with its five handlers, the unknown-command
 refusal and the release of a named buffer; `rx_packet`'s table part with the buffering of a miss; the expiry sweep; the
-flow-removed emission; flow / aggregate statistics).  The model mirrors the code in two variants, selected by a constant `Cfg` in
-the state: `Cfg.head` is `/repo` HEAD, `Cfg.repaired` the tree with the three proposed repairs `fixes/C04-1…3*.diff` applied.
+flow-removed emission; flow / aggregate statistics).  The model mirrors the code in variants selected by a constant `Cfg` in the
+state: the three repairs C04-1/2/3 (committed in `/repo`: 09c84e3, d2e474d, 0b8e7c4) and C03's variant of `ofp_match` (`Cfg.mv`: D37,
+D38 committed, D26 `fixes/C03_D26_exact_ignores_prereqless.diff`).  `Cfg.repaired` has them all, `Cfg.head` none (a tree that reverts
+them); the table's sort key is the variant's `effective_priority` (`Cfg.key`).
 Standard: `Spec/OF10Table.lean` (§4.6 / §4.7 / §5.3.3) on top of `Spec/OF10Match.lean` (§3.4).  Helper lemmas:
 `Proofs/FlowMod.lean`, `Proofs/FlowModRefine.lean`, `Proofs/StrictMatch.lean`, `Proofs/MatchCanon.lean`, `Proofs/Overlap.lean` and
 C03's `Proofs/FlowTable`, `Proofs/Subsume`, `Proofs/MatchSubsume`.
@@ -13,9 +15,10 @@ All theorems quantify over every state / every history (no bound on table size, 
 both code variants.  `table_sorted*`, `no_duplicates`, `removed_once`, `departures_leave`, `expiry_window`, `clock_inv` are about the
 model alone and need no hypothesis.  The refinement to the standard — table, counters, clocks, every message including the
 flow-removed stream — is `history_refines_partial`: it holds for every history whose transmitted matches are *regular* (`WireOk`).
-The unrestricted statement `history_refines_full` is kept next to it; it is false for both variants, and the `…_defect`
-theorems say exactly why: for the repaired variant only because of three open C03 findings about `ofp_match` (D38, D36, D26 — see
-`regular_repaired`), for HEAD also because of C04-1/2/3.  The harness replays every witness on the real switch. -/
+The unrestricted statement `history_refines_full` is kept next to it; it is false for every variant, and the `…_defect`
+theorems say exactly why: for the fully repaired variant only because of the open C03 finding D36 (ECN bits of the ToS byte — see
+`regular_repaired`), for a tree that reverts a repair because of that repair's finding.  The harness replays every witness on the
+real switch. -/
 namespace Pox.C04
 open Pox.OF Pox.OF.OfMatch Pox.FlowMod Pox.Spec
 
@@ -24,14 +27,15 @@ open Pox.OF Pox.OF.OfMatch Pox.FlowMod Pox.Spec
 /-- Descending effective priority is an invariant of every operation: after every history of flow-mods (all commands, any flags,
     any buffer id), packet arrivals, clock advances, sweeps and statistics requests, started from any sorted table, the table is
     sorted. -/
-theorem table_sorted (s : State) (ops : List Op) (hs : Sorted s.table) : Sorted (run s ops).1.table := run_sorted s ops hs
+theorem table_sorted (s : State) (ops : List Op) (hs : SortedC s.cfg s.table) : SortedC s.cfg (run s ops).1.table :=
+  run_sorted s ops hs
 
-theorem table_sorted_init (cfg : Cfg) (now mx mb : Nat) (ops : List Op) : Sorted (run (init cfg now mx mb) ops).1.table :=
-  run_sorted _ ops List.Pairwise.nil
+theorem table_sorted_init (cfg : Cfg) (now mx mb : Nat) (ops : List Op) : SortedC cfg (run (init cfg now mx mb) ops).1.table :=
+  run_sorted (init cfg now mx mb) ops List.Pairwise.nil
 
 /-- … after every prefix of every history -/
 theorem table_sorted_prefix (cfg : Cfg) (now mx mb : Nat) (ops : List Op) (k : Nat) :
-    Sorted (run (init cfg now mx mb) (ops.take k)).1.table :=
+    SortedC cfg (run (init cfg now mx mb) (ops.take k)).1.table :=
   table_sorted_init cfg now mx mb (ops.take k)
 
 /-- "An identical match and priority replaces": in every state reachable from the empty table — whatever the history, with no
@@ -128,7 +132,8 @@ theorem expiry_window (s : State) :
         ¬ (e.data.hard > 0 ∧ e.data.created + e.data.hard * 1000 < s.now)) ∧
     (∀ op e', e' ∈ (step s op).1.table →
       Kept s e' ∨
-      (∃ p inPort len, op = .packet p inPort len ∧ ∃ e ∈ s.table, e.accepts (fromPacket p inPort) = true ∧ e' = touch len s.now e) ∨
+      (∃ p inPort len, op = .packet p inPort len ∧
+        ∃ e ∈ s.table, e.accepts (s.cfg.mv.fromPacket p inPort) = true ∧ e' = touch len s.now e) ∨
       (∃ fm, op = .flowMod fm ∧ e' = mkEntry s.cfg s.now fm ∧ fm.flags.testBit FF_EMERG = false)) := by
   refine ⟨?_, fun op e' h => step_clocks s op e' h⟩
   intro e
@@ -177,24 +182,21 @@ theorem history_refines_partial (cfg : Cfg) (now mx mb : Nat) (ops : List Op) (h
     Inv (run (init cfg now mx mb) ops).1 :=
   run_refines (init cfg now mx mb) ops (init_inv cfg now mx mb) h
 
-/-- what "regular" still means once the three repairs are in: only the clauses that are open C03 findings about `ofp_match`
-    (wildcarded dl_type / nw_proto fields zero on the wire — D38; ToS without ECN bits — D36; a match without any wildcard bit is
-    IPv4 TCP/UDP/ICMP — D26), a priority that fits its 16-bit field, and complete frames -/
+/-- what "regular" still means once every repair is in: ToS values without ECN bits (the open C03 finding D36), a priority
+    that fits its 16-bit field, and complete frames -/
 def RegularOp : Op → Prop
-  | .flowMod fm => PrereqExact fm.mtch ∧ fm.mtch.nwTos % 4 = 0 ∧
-      (Spec.exact fm.mtch = true → fm.mtch.dlType = 0x0800 ∧ isL4Proto fm.mtch.nwProto = true) ∧ fm.priority ≤ 0xffff
-  | .packet p _ _ => regular p = true ∧ pktTos p % 4 = 0
-  | .flowStats m _ => PrereqExact m ∧ m.nwTos % 4 = 0
-  | .aggStats m _ => PrereqExact m ∧ m.nwTos % 4 = 0
+  | .flowMod fm => fm.mtch.nwTos % 4 = 0 ∧ fm.priority ≤ 0xffff
+  | .packet p _ _ => Variant.repaired.regular p = true ∧ pktTos p % 4 = 0
+  | .flowStats m _ => m.nwTos % 4 = 0
+  | .aggStats m _ => m.nwTos % 4 = 0
   | .advance _ => True
   | .sweep => True
 
 instance : (op : Op) → Decidable (RegularOp op)
-  | .flowMod fm => inferInstanceAs (Decidable (PrereqExact fm.mtch ∧ fm.mtch.nwTos % 4 = 0 ∧
-      (Spec.exact fm.mtch = true → fm.mtch.dlType = 0x0800 ∧ isL4Proto fm.mtch.nwProto = true) ∧ fm.priority ≤ 0xffff))
-  | .packet p _ _ => inferInstanceAs (Decidable (regular p = true ∧ pktTos p % 4 = 0))
-  | .flowStats m _ => inferInstanceAs (Decidable (PrereqExact m ∧ m.nwTos % 4 = 0))
-  | .aggStats m _ => inferInstanceAs (Decidable (PrereqExact m ∧ m.nwTos % 4 = 0))
+  | .flowMod fm => inferInstanceAs (Decidable (fm.mtch.nwTos % 4 = 0 ∧ fm.priority ≤ 0xffff))
+  | .packet p _ _ => inferInstanceAs (Decidable (Variant.repaired.regular p = true ∧ pktTos p % 4 = 0))
+  | .flowStats m _ => inferInstanceAs (Decidable (m.nwTos % 4 = 0))
+  | .aggStats m _ => inferInstanceAs (Decidable (m.nwTos % 4 = 0))
   | .advance _ => isTrue trivial
   | .sweep => isTrue trivial
 
@@ -202,20 +204,22 @@ theorem regular_repaired (op : Op) (h : RegularOp op) : OpOk Cfg.repaired op := 
   have t1 : Cfg.repaired.maskUndefined ≠ false := by decide
   have t2 : Cfg.repaired.strictMutual ≠ false := by decide
   have t3 : Cfg.repaired.statsUnwire ≠ false := by decide
+  have t4 : Cfg.repaired.mv.prereqExact ≠ false := by decide
+  have t5 : Cfg.repaired.mv.exactSig ≠ false := by decide
   cases op with
   | flowMod fm =>
-    obtain ⟨a, b, c, d⟩ := h
-    exact { mok := { prereq := a, tos := b, exactL4 := c, width := fun h => absurd h t1, hostSrc := fun h => absurd h t2,
-                     hostDst := fun h => absurd h t2 },
-            prio := d }
+    exact { mok := { prereq := fun h => absurd h t4, tos := h.1, exactL4 := fun h => absurd h t5, width := fun h => absurd h t1,
+                     hostSrc := fun h => absurd h t2, hostDst := fun h => absurd h t2 },
+            prio := h.2 }
   | packet p port len => exact h
-  | flowStats m o => exact { prereq := h.1, tos := h.2, canon := fun h => absurd h t3 }
-  | aggStats m o => exact { prereq := h.1, tos := h.2, canon := fun h => absurd h t3 }
+  | flowStats m o => exact { prereq := fun h => absurd h t4, tos := h, canon := fun h => absurd h t3 }
+  | aggStats m o => exact { prereq := fun h => absurd h t4, tos := h, canon := fun h => absurd h t3 }
   | advance dt => trivial
   | sweep => trivial
 
-/-- with the three repairs, the refinement holds for every history outside C03's open findings: address bits below the prefix,
-    undefined wildcard bits and un-normalised statistics requests are all handled as the standard says -/
+/-- with every repair, the refinement holds for every history outside the one open finding D36: address bits below the prefix,
+    undefined wildcard bits, un-normalised statistics requests, wildcarded prerequisite fields and exact non-L4 flows are all
+    handled as the standard says -/
 theorem history_refines_repaired (now mx mb : Nat) (ops : List Op) (h : ∀ op ∈ ops, RegularOp op) :
     abs (run (init Cfg.repaired now mx mb) ops).1 = (Spec.run (specInit now mx mb) ops).1 ∧
     (run (init Cfg.repaired now mx mb) ops).2.map (fun os => os.map absOut) = (Spec.run (specInit now mx mb) ops).2 :=
@@ -250,7 +254,7 @@ theorem overlap_meaning (a b : OfMatch) : overlaps a b = true ↔ ∃ h : Header
     matched by a packet that also matches the new flow — including flows that overlap only partially (`partial_overlap_witness`,
     `cidr_overlap_witness`). -/
 theorem overlap_check_exact (s : State) (fm : FlowModMsg) (hi : Inv s) (hm : MsgOk s.cfg fm) (he : fm.flags.testBit FF_EMERG = false) :
-    overlapScan (mkEntry s.cfg s.now fm).effectivePriority (rxMatch s.cfg fm.mtch) s.table = true ↔
+    overlapScan s.cfg.key (s.cfg.key (mkEntry s.cfg s.now fm)) (rxMatch s.cfg fm.mtch) s.table = true ↔
       ∃ e ∈ s.table, (absEntry e).rank = (newFlow s.now fm).rank ∧
         ∃ h : Headers, matchHdr e.data.wire h = true ∧ matchHdr fm.mtch h = true := by
   rw [overlap_abs s fm hi hm he]
@@ -413,12 +417,28 @@ def mArpExact : OfMatch :=
   { wildcards := 0, inPort := 1, dlSrc := 1, dlDst := 2, dlVlan := 0xffff, dlVlanPcp := 0, dlType := 0x0806, nwTos := 0, nwProto := 1,
     nwSrc := 0x0a000001, nwDst := 0x0a000002, tpSrc := 0, tpDst := 0 }
 
-/-- … and, after the three repairs, still fails on inputs of C03's open finding D26 (an exact-match flow that is not IPv4
-    TCP/UDP/ICMP is not ranked above the wildcarded ones: the table order differs from the standard's).  This is why
+/-- every repair but D26 -/
+def cfgNoD26 : Cfg := { Cfg.repaired with mv := { Variant.repaired with exactSig := false } }
+
+/-- **D26** (C03's finding, seen through the table) — without the repair, an exact-match flow that is not IPv4 TCP/UDP/ICMP gets
+    its own priority as sort key instead of the exact-match rank: installed with priority 1 it ends up *behind* a wildcarded flow
+    of priority 100, where the standard (and the repaired variant, whose key is `Cfg.key Cfg.repaired`) has it in front. -/
+theorem exact_rank_defect :
+    let ops := [fmsg .add mArpExact 1 0 1, fmsg .add mInPort1 100 0 2]
+    Spec.exactSig mArpExact = true ∧ ¬ WireOk cfgNoD26 mArpExact ∧
+    (run (init cfgNoD26 0 100 4) ops).1.table.map (·.data.cookie) = [2, 1] ∧
+    (Spec.run (specInit 0 100 4) ops).1.flows.map (·.cookie) = [1, 2] ∧
+    HistOk Cfg.repaired ops ∧ (run (init Cfg.repaired 0 100 4) ops).1.table.map (·.data.cookie) = [1, 2] := by decide
+
+/-- `dl_type=0x0800, nw_tos` with and without the ECT(0) bit: the same flow for the standard (only the 6 DSCP bits count) -/
+def mTos (t : Nat) : OfMatch := { zeroMatch with wildcards := wc [.dlType, .nwTos] 32 32, dlType := 0x0800, nwTos := t }
+
+/-- … and, with every repair, the unrestricted statement still fails on inputs of C03's open finding D36 (the code compares all 8
+    bits of the ToS byte: two ADDs of the same flow written with different ECN bits do not replace each other).  This is why
     `history_refines_repaired` keeps the `RegularOp` hypothesis. -/
 theorem history_refines_full_defect_repaired : ¬ history_refines_full Cfg.repaired := by
   intro h
-  have := congrArg (fun t : STable => t.flows.map (·.cookie)) (h 0 100 4 [fmsg .add mArpExact 1 0 1, fmsg .add mInPort1 100 0 2]).1
+  have := congrArg (fun t : STable => t.flows.map (·.cookie)) (h 0 100 4 [fmsg .add (mTos 0) 100 0 1, fmsg .add (mTos 2) 100 0 2]).1
   revert this
   decide
 
